@@ -5,6 +5,7 @@ import (
 	"go/ast"
 	"go/token"
 	"go/types"
+	"strings"
 )
 
 // frame of the function body currently being executed (the verified function or an inlined callee)
@@ -86,8 +87,8 @@ func (c *Ctx) bindCallEnv(env *SpecEnv, sig *types.Signature, fd *ast.FuncDecl, 
 type modTarget struct {
 	fam, leaf string
 	ref       Term
-	idx       *Term // nil: whole row (or range when lo/hi are set)
-	lo, hi    *Term // absolute index range [lo,hi) inside the row
+	idx       *Term       // nil: whole row (or range when lo/hi are set)
+	lo, hi    *Term       // absolute index range [lo,hi) inside the row
 	ghost     *GhostField // file-level ghost variable
 	all       bool        // the whole family (every object)
 }
@@ -207,6 +208,21 @@ func (c *Ctx) modTargets(env *SpecEnv, cl *Clause) []modTarget {
 					}
 				}
 			}
+			if _, isPtr := base.(Ptr); !isPtr {
+				// nested struct value reached through a pointer (p.a.b.f) or a promoted field of an embedded struct
+				if pre, ty, ref, idx, ok := c.structLoc(env, s.X); ok {
+					if names, ft := fieldPath(ty, s.Name); ft != nil {
+						i := idx
+						add(pre+"."+strings.Join(names, "."), ft, ref, &i)
+						if sl, ok := ft.Underlying().(*types.Slice); ok && !c.opaqueType(ft) {
+							if cur, ok := env.eval(x).(Slice); ok {
+								add(c.elemPrefix(sl.Elem()), sl.Elem(), cur.Ref, nil)
+							}
+						}
+						return
+					}
+				}
+			}
 			if p, ok := base.(Ptr); ok {
 				stt, ok := p.Elem.Underlying().(*types.Struct)
 				if !ok {
@@ -217,6 +233,19 @@ func (c *Ctx) modTargets(env *SpecEnv, cl *Clause) []modTarget {
 				for i := 0; i < stt.NumFields(); i++ {
 					if stt.Field(i).Name() == s.Name {
 						ft = stt.Field(i).Type()
+					}
+				}
+				if ft == nil {
+					// promoted through embedded structs
+					if names, pft := fieldPath(p.Elem, s.Name); pft != nil && len(names) > 1 {
+						idx := p.Idx
+						add(prefix+"."+strings.Join(names, "."), pft, p.Ref, &idx)
+						if sl, ok := pft.Underlying().(*types.Slice); ok && !c.opaqueType(pft) {
+							if cur, ok := env.eval(x).(Slice); ok {
+								add(c.elemPrefix(sl.Elem()), sl.Elem(), cur.Ref, nil)
+							}
+						}
+						return
 					}
 				}
 				if ft == nil {
@@ -382,6 +411,58 @@ func (c *Ctx) applyContractSig(st *State, x *ast.CallExpr, pk *Pkg, sig *types.S
 		return rvals[0]
 	}
 	return Tuple{rvals}
+}
+
+// structLoc: heap location (family prefix, struct type, object, index) of a struct-valued spec expression that is
+// a (chain of) field(s) of a pointed-to struct.
+func (c *Ctx) structLoc(env *SpecEnv, x SExpr) (string, types.Type, Term, Term, bool) {
+	if p, ok := env.eval(x).(Ptr); ok {
+		return c.ptrPrefix(p), p.Elem, p.Ref, p.Idx, true
+	}
+	s, ok := x.(*SSel)
+	if !ok {
+		return "", nil, Term{}, Term{}, false
+	}
+	pre, ty, ref, idx, ok := c.structLoc(env, s.X)
+	if !ok {
+		return "", nil, Term{}, Term{}, false
+	}
+	names, ft := fieldPath(ty, s.Name)
+	if ft == nil {
+		return "", nil, Term{}, Term{}, false
+	}
+	if _, isSt := ft.Underlying().(*types.Struct); !isSt {
+		return "", nil, Term{}, Term{}, false
+	}
+	return pre + "." + strings.Join(names, "."), ft, ref, idx, true
+}
+
+// fieldPath resolves field name in struct type t, following embedded structs: the field names on the way and the
+// field's type (nil when absent or reached through an embedded pointer).
+func fieldPath(t types.Type, name string) ([]string, types.Type) {
+	obj, index, _ := types.LookupFieldOrMethod(t, true, nil, name)
+	if obj == nil {
+		// unexported fields of other packages: look up with the declaring package
+		if n, ok := t.(*types.Named); ok && n.Obj().Pkg() != nil {
+			obj, index, _ = types.LookupFieldOrMethod(t, true, n.Obj().Pkg(), name)
+		}
+	}
+	v, ok := obj.(*types.Var)
+	if !ok || !v.IsField() {
+		return nil, nil
+	}
+	var names []string
+	cur := t
+	for _, i := range index {
+		st, ok := cur.Underlying().(*types.Struct)
+		if !ok {
+			return nil, nil // through an embedded pointer: a different object
+		}
+		f := st.Field(i)
+		names = append(names, f.Name())
+		cur = f.Type()
+	}
+	return names, v.Type()
 }
 
 // refsBounded: every reference inside v is an allocated object (<= alloc).
